@@ -369,3 +369,80 @@ pub fn function(rng: &mut Rng, cfg: &GenCfg, address: u64) -> il::Function {
     }
     il::Function::new(address, g)
 }
+
+
+/// Compiler-like CFG shapes (if-then, if-then-else, while, do-while, a loop with an if inside, two
+/// ifs in sequence) filled with random operations; arms prefer `scalar = constant` assignments and
+/// join blocks prefer copies/uses, which is where data-flow analyses have to merge facts.
+pub fn structured_function(rng: &mut Rng, cfg: &GenCfg, address: u64) -> il::Function {
+    // (number of blocks, edges (head, tail, guard kind: 0 none, 1 g, 2 not g, 3 h, 4 not h), arm blocks, join blocks)
+    let shapes: Vec<(usize, Vec<(usize, usize, u8)>, Vec<usize>, Vec<usize>)> = vec![
+        (3, vec![(0, 1, 1), (0, 2, 2), (1, 2, 0)], vec![1], vec![2]),
+        (4, vec![(0, 1, 1), (0, 2, 2), (1, 3, 0), (2, 3, 0)], vec![1, 2], vec![3]),
+        (4, vec![(0, 1, 0), (1, 2, 1), (2, 1, 0), (1, 3, 2)], vec![2], vec![1, 3]),
+        (3, vec![(0, 1, 0), (1, 1, 1), (1, 2, 2)], vec![1], vec![2]),
+        (6, vec![(0, 1, 0), (1, 2, 1), (1, 3, 2), (2, 4, 0), (3, 4, 0), (4, 1, 3), (4, 5, 4)], vec![2, 3], vec![1, 4, 5]),
+        (5, vec![(0, 1, 1), (0, 2, 2), (1, 2, 0), (2, 3, 3), (2, 4, 4), (3, 4, 0)], vec![1, 3], vec![2, 4]),
+    ];
+    let (nb, edges, arms, joins) = rng.pick(&shapes).clone();
+    let mut g = il::ControlFlowGraph::new();
+    let mut next_addr = address;
+    let mut arm_defs: Vec<il::Scalar> = Vec::new();
+    // build arms before joins so that joins can use what the arms defined (block order is kept)
+    for b in 0..nb {
+        let blk = g.new_block().unwrap();
+        let n = if b == 0 { if rng.bool() { 0 } else { rng.below(3) } } else { rng.range(1, cfg.max_ins.max(1) as u64) };
+        for k in 0..n {
+            let op = if arms.contains(&b) && rng.chance(2, 3) {
+                let dst = rng.pick(&cfg.scalars).clone();
+                let c = il::expr_const(rng.below(4), dst.bits());
+                arm_defs.push(dst.clone());
+                il::Operation::assign(dst, c)
+            } else if joins.contains(&b) && k == 0 && !arm_defs.is_empty() && rng.chance(2, 3) {
+                // the join computes from a scalar an arm defined: y = x + 1
+                let x = rng.pick(&arm_defs).clone();
+                let same: Vec<&il::Scalar> = cfg.scalars.iter().filter(|s| s.bits() == x.bits() && **s != x).collect();
+                let dst = if same.is_empty() { x.clone() } else { (*rng.pick(&same)).clone() };
+                let src = E::add(E::Scalar(x.clone()), il::expr_const(1, x.bits())).unwrap();
+                il::Operation::assign(dst, src)
+            } else if joins.contains(&b) && k == 0 && rng.chance(1, 2) {
+                let dst = rng.pick(&cfg.scalars).clone();
+                let src = expr(rng, cfg, dst.bits(), 1);
+                il::Operation::assign(dst, src)
+            } else {
+                operation(rng, cfg, &[])
+            };
+            match op {
+                il::Operation::Assign { dst, src } => blk.assign(dst, src),
+                il::Operation::Store { index, src } => blk.store(index, src),
+                il::Operation::Load { dst, index } => blk.load(dst, index),
+                il::Operation::Branch { target } => blk.branch(target),
+                il::Operation::Intrinsic { intrinsic } => blk.intrinsic(intrinsic),
+                il::Operation::Nop { .. } => blk.nop(),
+            }
+            blk.instructions_mut().last_mut().unwrap().set_address(Some(next_addr));
+            next_addr += 4;
+        }
+    }
+    let gg = cond(rng, cfg, 1);
+    let ng = E::cmpeq(gg.clone(), il::expr_const(0, 1)).unwrap();
+    let hh = cond(rng, cfg, 1);
+    let nh = E::cmpeq(hh.clone(), il::expr_const(0, 1)).unwrap();
+    for (h, t, k) in edges {
+        match k {
+            0 => g.unconditional_edge(h, t).unwrap(),
+            1 => g.conditional_edge(h, t, gg.clone()).unwrap(),
+            2 => g.conditional_edge(h, t, ng.clone()).unwrap(),
+            3 => g.conditional_edge(h, t, hh.clone()).unwrap(),
+            _ => g.conditional_edge(h, t, nh.clone()).unwrap(),
+        }
+    }
+    g.set_entry(0).unwrap();
+    g.set_exit(nb - 1).unwrap();
+    il::Function::new(address, g)
+}
+
+/// `function` or, one time in three, `structured_function`
+pub fn any_function(rng: &mut Rng, cfg: &GenCfg, address: u64) -> il::Function {
+    if rng.chance(1, 3) { structured_function(rng, cfg, address) } else { function(rng, cfg, address) }
+}
